@@ -40,6 +40,40 @@ CLAIMED["C03"] = (
     "DESIGN.md §3 C03",
 )
 
+CLAIMED["C04"] = (
+    "proptest stateful chains: trace -> simplify -> compare child with original parent on the traced domain, all evaluator kinds, JIT and 9 interpreter budget pairs",
+    "Generated-input search over DAGs rich in min/max/and/or, multi-output, with chains of up to 4 nested simplifications whose traces come "
+    "from interval or point evaluators of either backend; after each step the newest child is compared bit-for-bit with the ORIGINAL parent at points "
+    "of the traced box under point, float-slice and gradient-slice evaluators, its interval evaluator must stay sound, simplify must accept every trace "
+    "just returned, and variable numbering / output count must be kept. Exploration.",
+    "Mismatches downstream of listed open findings (F7 zero-tie, F11 NaN-from-infinity, F12 grad abs(-0)) are attributed by a reference evaluation of the "
+    "whole graph at the failing point and reported as KNOWN-FINDING; everything else is a violation. x86_64 only.",
+    "DESIGN.md §3 C04",
+)
+CLAIMED["C05"] = (
+    "proptest local derivative obligations (f64 textbook rules on the evaluator's own operand duals, arbitrary seeds) + symbolic derivative vs independent f64 forward mode + Grad transform vs Jacobian",
+    "Generated-input search: per node, the gradient evaluators' (interpreter + JIT) value must equal the opcode's point meaning and each partial the "
+    "chain rule applied to the operands' own partials, with arbitrary (non-axis) seed gradients; Context::deriv is evaluated in f64 and compared with an "
+    "independent forward-mode derivative; the Grad input transform is compared with the matrix Jacobian. Exploration with stated tolerance 1e-4 of the sum of |terms|.",
+    "Points within 1e-3 (relative) of a non-differentiable locus and obligations outside a comfortable f32 range are skipped and counted. x86_64 only.",
+    "DESIGN.md §3 C05",
+)
+CLAIMED["C06"] = (
+    "proptest brute-force reference: every pixel of generated scenes vs graph evaluation at the pixel's sample position (bit-exact in pixel-perfect mode)",
+    "Generated scenes (CSG / random DAGs / bundled models x image sizes 1..150 non-square x transforms x tile lists x pixel-perfect x backend x thread pool); "
+    "every pixel is re-derived independently: sample position through the documented screen-to-world map and the world-to-model matrix, value by graph "
+    "evaluation; Fill pixels must have the right sign, Value pixels the exact value. Exploration of scene/configuration space; each scene is checked exhaustively.",
+    "Trusts nalgebra for matrix products / transform_point and per-opcode graph evaluation for values (C01/C12).",
+    "DESIGN.md §3 C06",
+)
+CLAIMED["C07"] = (
+    "proptest brute-force reference: per-voxel evaluation of the whole (extended) grid vs rendered depth; normals vs gradient evaluator on the unsimplified function",
+    "Generated 3D scenes with occlusion, grids with width != height != depth and not multiples of the root tile, tile lists, transforms, both backends, thread "
+    "pools; every column is re-derived by evaluating every voxel; depth, saturation and empty conventions and normals are compared exactly. Exploration; each scene exhaustive.",
+    "Columns with an inside voxel above the grid are outside the claim (counted). Normals are compared with the library's gradient evaluator on the unsimplified shape, which C05 ties to true derivatives.",
+    "DESIGN.md §3 C07",
+)
+
 NOT_YET = {
 }
 
